@@ -7,6 +7,7 @@ is translated into a Coq value `design : Vexp.design`:
     next       : one expression per register (value after a rising clock edge; i_rst is an ordinary input)
     wires      : definitions of the "cut" signals that were deliberately not inlined (they appear as `V name w`)
     mem_writes : clocked writes to unpacked arrays (array, enable, address, data)
+    clocking   : the sensitivity list (sorted edge list) of the clocked block that assigns each register / array
 Every `always` block is if-converted by symbolic execution, functions are inlined, combinational signals are resolved in
 dependency order and fully inlined.  Constants containing x/z become uninterpreted inputs `X k`.
 
@@ -543,13 +544,19 @@ class Gen:
                 raise Unsupported(t, 'module item')
         # registers = targets of non-blocking assignments in clocked blocks
         regs = []
+        clocking = {}         # register / written array -> the sorted edge list of the clocked block that assigns it
         for a in seq_blocks:
+            st = a.find('sentree')
+            edges = sorted('%s %s' % ({'POS': 'posedge', 'NEG': 'negedge', 'BOTH': 'edge'}[si.get('edgeType')], list(si)[0].get('name')) for si in st)
             for ad in a.iter('assigndly'):
                 lhs = list(ad)[1]
-                if lhs.tag == 'arraysel':
-                    continue
                 base = lhs if lhs.tag == 'varref' else list(lhs)[0]
                 n = base.get('name')
+                if n in clocking and clocking[n] != edges:
+                    raise Unsupported('sentree', '%s is assigned in clocked blocks with different sensitivity lists' % n)
+                clocking[n] = edges
+                if lhs.tag == 'arraysel':
+                    continue
                 if n not in regs:
                     regs.append(n)
             for x in a.iter('assign'):
@@ -655,6 +662,7 @@ class Gen:
             'wires': wires,
             'mem_writes': list(self.memw),
             'nx': self.nx,
+            'clocking': sorted(clocking.items()),
             'inputs': [(n, self.width(vars_[n].get('dtype_id'))) for n in inputs],
             'regs': [(r, self.width(vars_[r].get('dtype_id'))) for r in sorted(regs)],
             'arrays': [(n,) + self.array_info(v.get('dtype_id')) for n, v in vars_.items() if self.is_array(v.get('dtype_id'))],
@@ -684,8 +692,12 @@ def coq_text(res, source_desc):
     L.append('Definition d_mem_writes : list (string * (vexp * (vexp * vexp))) := [')
     L.append(';\n'.join('  ("%s",\n    (%s,\n    (%s,\n     %s)))' % (m, pr(en), pr(ad), pr(da)) for m, en, ad, da in res['mem_writes']))
     L.append('].')
+    L.append('(* the sensitivity list of the clocked block that assigns each register / array *)')
+    L.append('Definition d_clocking : list (string * list string) := [')
+    L.append(';\n'.join('  ("%s", [%s])' % (n, '; '.join('"%s"' % e for e in es)) for n, es in res['clocking']))
+    L.append('].')
     L.append('Definition design : Vexp.design :=')
-    L.append('  {| outputs := d_outputs; next := d_next; wires := d_wires; mem_writes := d_mem_writes; nx := %d |}.' % res['nx'])
+    L.append('  {| outputs := d_outputs; next := d_next; wires := d_wires; mem_writes := d_mem_writes; clocking := d_clocking; nx := %d |}.' % res['nx'])
     return '\n'.join(L) + '\n'
 
 
@@ -752,7 +764,7 @@ def failure_text(name, ex):
             'From Coq Require Import ZArith String List.\nFrom HexVerif Require Import Vexp.\n'
             'Definition translation_failed : unit := tt.\n'
             'Definition design : Vexp.design :=\n'
-            '  {| outputs := nil; next := nil; wires := nil; mem_writes := nil; nx := 0 |}.\n'
+            '  {| outputs := nil; next := nil; wires := nil; mem_writes := nil; clocking := nil; nx := 0 |}.\n'
             % (name, str(ex).replace('*)', '* )').replace('(*', '( *')))
 
 
